@@ -8,8 +8,11 @@ _RT = ["Check/CheckRun.vo", "Check/Guards.vo"]
 
 PROPS = {
     # proj/mon and the run-time models: the run-kind corpus witnesses D1, D19 list C09
+    # C09runtime: the run-time half on the reference semantics (coq/C09*.v)
     "C09": dict(kind="check", quick=120, thorough=2400, proj="P_C01", mon="mon_C01",
-                runtime=_RT + ["NetRun.vo", "Monitors.vo"], targets=["Properties/C09.vo"]),
+                property_files=("C09runtime",),
+                runtime=_RT + ["NetRun.vo", "Monitors.vo"],
+                targets=["Properties/C09.vo", "Properties/C09runtime.vo"]),
     "C10": dict(kind="check", quick=3, thorough=60, runtime=_RT, targets=["Properties/C10.vo"]),
     "C11": dict(kind="check", quick=160, thorough=3200, runtime=_RT, targets=["Properties/C11.vo"]),
     # C16text: the same property on program TEXTS (coq/TextPipeline.v; extra slice harness/kind_c16text.py)
